@@ -3,10 +3,12 @@ package main
 import (
 	"bytes"
 	"encoding/json"
-	"go/types"
+	"fmt"
 	"go/token"
+	"go/types"
 	"os"
 	"path/filepath"
+	"strings"
 	"text/template"
 )
 
@@ -30,6 +32,39 @@ func init() {
 	// text/template on concrete text: the real library, called natively
 	reg("text/template.New", func(m *Machine, fr *frame, a []Value) Value {
 		return &Native{V: template.New(m.concStr(a[0], "template.New"))}
+	})
+	reg("(*text/template.Template).Option", func(m *Machine, fr *frame, a []Value) Value {
+		t := a[0].(*Native).V.(*template.Template)
+		var opts []string
+		for _, o := range a[1].([]Value) {
+			opts = append(opts, m.concStr(o, "Template.Option"))
+		}
+		return &Native{V: t.Option(opts...)}
+	})
+	// Funcs: the function values live in the interpreter and cannot be handed to the native library; the
+	// names are registered with native stand-ins (the real strings functions where the name says so, otherwise
+	// a function that fails when a template actually calls it)
+	reg("(*text/template.Template).Funcs", func(m *Machine, fr *frame, a []Value) Value {
+		t := a[0].(*Native).V.(*template.Template)
+		fm := template.FuncMap{}
+		known := map[string]any{"ToLower": strings.ToLower, "ToUpper": strings.ToUpper, "Replace": strings.Replace,
+			"Trim": strings.Trim, "TrimLeft": strings.TrimLeft, "TrimRight": strings.TrimRight, "TrimPrefix": strings.TrimPrefix,
+			"TrimSuffix": strings.TrimSuffix, "TrimSpace": strings.TrimSpace, "lower": strings.ToLower, "upper": strings.ToUpper}
+		if mp, ok := a[1].(*Map); ok && mp != nil {
+			for _, e := range mp.entries {
+				name, ok := e.k.(Str).Concrete()
+				if !ok {
+					continue
+				}
+				if f, ok := known[name]; ok {
+					fm[name] = f
+				} else {
+					n := name
+					fm[n] = func(args ...any) (string, error) { return "", fmt.Errorf("template function %s is not modelled", n) }
+				}
+			}
+		}
+		return &Native{V: t.Funcs(fm)}
 	})
 	reg("(*text/template.Template).Parse", func(m *Machine, fr *frame, a []Value) Value {
 		t := a[0].(*Native).V.(*template.Template)
